@@ -508,10 +508,34 @@ func c05Case(w *fw.W, idx int, r *fw.Rand) {
 				bad = fmt.Sprintf("%s = %d, but Roll(generator, %d) from the same generator state = %d", fmt.Sprintf(form, t.n), got, t.n, want)
 			}
 		}
+		// pools: K dice of a pool are K successive draws of the same sampler (keep-highest-one /
+		// keep-lowest-one so that the total stays inside the integer range for every size)
+		for k := 0; k < 300 && bad == ""; k++ {
+			vm := Cfg{Seed: r.U64() | 1}.NewVM()
+			clone := *vm.RandSrc
+			cnt := []int{2, 3, 5, 2, 8}[k%5]
+			hi := k%2 == 0
+			src := fmt.Sprintf("%dd%dk%s1", cnt, t.n, map[bool]string{true: "h", false: "l"}[hi])
+			if err := vm.Run(src); err != nil {
+				bad = fmt.Sprintf("%s rejected: %s", src, firstLine(err.Error()))
+				break
+			}
+			got, _ := vm.Ret.ReadInt()
+			var want ds.IntType
+			for i := 0; i < cnt; i++ {
+				v := ds.Roll(&clone, ds.IntType(t.n), 0)
+				if i == 0 || (hi && v > want) || (!hi && v < want) {
+					want = v
+				}
+			}
+			if got != want {
+				bad = fmt.Sprintf("%s = %d, but %d successive Roll(generator, %d) from the same generator state give %d", src, got, cnt, t.n, want)
+			}
+		}
 		if bad != "" {
 			w.Violate(idx, "dice-bias", "roll|vm-exact", desc, bad, nil)
 		}
-		w.Eval(300)
+		w.Eval(600)
 		w.Count("vmexact_checks", 1)
 		w.Note(fw.Hash64(desc))
 		return
